@@ -4,8 +4,8 @@
    `resolve` loop by loop; the C05 statements (re-exported by Props/C05.v).
    Everything holds for an arbitrary argument-dict equality `args_eqb` and arbitrary choice
    functions; sort_reverse / pad_value enter only where stated. *)
-From Coq Require Import List String Bool QArith Arith Lia Permutation Sorting.Sorted.
-From NG Require Import Gen.C05Consts V2.Conflict.
+From Coq Require Import List String Bool QArith Qpower ZArith Arith Lia Permutation Sorting.Sorted.
+From NG Require Import Gen.C05Consts Gen.MatchConsts Val.ScoreQ V2.Conflict.
 Import ListNotations.
 Open Scope list_scope.
 Open Scope nat_scope.
@@ -1025,6 +1025,92 @@ Section Proofs.
   Qed.
 End Proofs.
 
+
+(* ---------------------------------------------------------------------------------- *)
+(* specificity: the score of the match on the triggering event decides first *)
+Lemma lex_cmp_first_lt (x y : Q) a b n m :
+  (x < y)%Q -> lex_cmp (pad n (x :: a)) (pad m (y :: b)) = Lt.
+Proof.
+  intro H. unfold pad. rewrite <- !app_comm_cons. cbn [lex_cmp]. rewrite (proj1 (Qlt_alt x y) H). reflexivity.
+Qed.
+
+Lemma factor_power_decreasing (k1 k2 : Z) :
+  (0 <= k1 < k2)%Z -> (factor ^ k2 < factor ^ k1)%Q.
+Proof.
+  intros [H0 H]. replace k2 with (k1 + Z.of_nat (Z.to_nat (k2 - k1 - 1)) + 1)%Z by lia.
+  induction (Z.to_nat (k2 - k1 - 1)) as [|n IH].
+  - simpl. rewrite Z.add_0_r. apply Qpower_strict_decreasing; [reflexivity|reflexivity|exact H0].
+  - eapply Qlt_trans; [|exact IH].
+    replace (k1 + Z.of_nat (S n) + 1)%Z with ((k1 + Z.of_nat n + 1) + 1)%Z by lia.
+    apply Qpower_strict_decreasing; [reflexivity|reflexivity|lia].
+Qed.
+
+Lemma score_fewer_unmentioned_greater (p : Q) (k1 k2 : Z) :
+  (0 < p)%Q -> (0 <= k1 < k2)%Z -> (p * factor ^ k2 < p * factor ^ k1)%Q.
+Proof.
+  intros Hp Hk. apply Qmult_lt_l; [exact Hp|]. apply factor_power_decreasing. exact Hk.
+Qed.
+
+Section Specificity.
+  Variable args : Type.
+  Variable args_eqb : args -> args -> bool.
+
+  (* a candidate whose first score is strictly below another candidate's of the same loop is
+     never the picked head *)
+  Theorem less_specific_never_wins pick (cands : list (cand args)) l c c' x a y b :
+    sort_reverse = true -> picks_ok pick ->
+    In c (loop_cands args cands l) -> In c' (loop_cands args cands l) ->
+    c_scores c = x :: a -> c_scores c' = y :: b -> (x < y)%Q ->
+    ~ In (c, Win) (loop_decisions args args_eqb pick cands l).
+  Proof.
+    intros Hrev Hpk Hc Hc' Ex Ey Hlt Hw.
+    apply (winner_is_maximal args args_eqb pick cands l c Hrev Hpk Hw c' Hc').
+    unfold key_of. rewrite Ex, Ey. apply lex_cmp_first_lt. exact Hlt.
+  Qed.
+
+  (* ... in particular with scores priority * factor^(unmentioned parameters) *)
+  Theorem more_unmentioned_never_wins pick (cands : list (cand args)) l c c' p k k' a b :
+    sort_reverse = true -> picks_ok pick ->
+    In c (loop_cands args cands l) -> In c' (loop_cands args cands l) ->
+    (0 < p)%Q -> (0 <= k' < k)%Z ->
+    c_scores c = (p * factor ^ k)%Q :: a -> c_scores c' = (p * factor ^ k')%Q :: b ->
+    ~ In (c, Win) (loop_decisions args args_eqb pick cands l).
+  Proof.
+    intros Hrev Hpk Hc Hc' Hp Hk Ex Ey.
+    eapply less_specific_never_wins; eauto. apply score_fewer_unmentioned_greater; assumption.
+  Qed.
+End Specificity.
+
+(* ---------------------------------------------------------------------------------- *)
+(* Sanity (depends on the generated constants, hence here and not in Conflict.v): the example of docs/colang_2/language_reference/more-on-flows.rst
+   ("Flow Conflict Resolution Prioritization"): chains 1.0 -> 1.0 -> 1.0 and 0.9 -> 1.0 -> 1.0,
+   different actions: the first chain wins, the second flow is aborted. *)
+Module Sanity.
+  Open Scope string_scope.
+  Definition ev (s : string) : event string := {| ev_name := "StartUtteranceBotAction"; ev_args := s |}.
+  Definition mk (h l : string) (sc : list Q) (s : string) : cand string :=
+    {| c_head := h; c_flow := "f" ++ h; c_loop := l; c_scores := sc; c_event := ev s;
+       c_action := None; c_catch := [] |}.
+  Definition pick0 : nat -> nat -> nat := fun _ _ => 0.
+
+  Definition doc_cands := [mk "b" "main" [9#10; 1; 1]%Q "Sure"; mk "a" "main" [1; 1; 1]%Q "Hello"].
+  Example doc_example :
+    result_of (resolve string String.eqb pick0 doc_cands)
+    = {| r_advancing := ["a"]; r_emitted := [ev "Hello"]; r_aborted := [("fb", [9#10; 1; 1]%Q)];
+         r_jumped := []; r_merged := [] |}.
+  Proof. vm_compute. reflexivity. Qed.
+
+  (* shorter list padded with 1.0 wins against an equal prefix followed by a lower score;
+     two loops never compete; identical actions co-win and are emitted once *)
+  Definition cands2 :=
+    [mk "1" "L1" [9#10]%Q "A"; mk "2" "L1" [9#10; 9#10]%Q "B"; mk "3" "L2" [1#2]%Q "C"; mk "4" "L1" [81#100]%Q "A"].
+  Example padding_loops_cowin :
+    result_of (resolve string String.eqb pick0 cands2)
+    = {| r_advancing := ["1"; "4"; "3"]; r_emitted := [ev "A"; ev "C"];
+         r_aborted := [("f2", [9#10; 9#10]%Q)]; r_jumped := []; r_merged := [] |}.
+  Proof. vm_compute. reflexivity. Qed.
+End Sanity.
+
 (* ---------------------------------------------------------------------------------- *)
 (* Non-vacuity: one concrete state in which the hypotheses of every statement above hold,
    and the regression witness for the tie-set quirk. *)
@@ -1097,6 +1183,12 @@ Module Examples.
     /\ c_catch c4 = []
     /\ In c5 (loop_cands string cs "main") /\ is_equal string String.eqb (c_event c1) (c_event c5) = false
     /\ c_catch c5 <> [].
+  Proof. vm_compute. intuition discriminate. Qed.
+
+  (* hypotheses of more_unmentioned_never_wins: c1 = 1 * factor^2, c3 = 1 * factor^3, same loop *)
+  Example specificity_inhabited :
+    c_scores c1 = [(1 * factor ^ 2)%Q] /\ c_scores c3 = [(1 * factor ^ 3)%Q]
+    /\ In c1 (loop_cands string cs "main") /\ In c3 (loop_cands string cs "main") /\ (0 <= 2 < 3)%Z.
   Proof. vm_compute. intuition discriminate. Qed.
 
   (* loops_independent: dropping or changing the candidates of other loops does not change "main" *)
